@@ -14,6 +14,8 @@ pub enum Ctx {
     TzHolidays(String, String),
     /// `Context::from_coords`: (lat, lon) in 1e-4 degrees
     Coords(i32, i32),
+    /// explicit zone plus coordinates (sun events computed for the place), no holidays, no lazy table
+    TzCoords(String, i32, i32),
 }
 
 #[derive(Serialize, Deserialize, Clone, Debug, PartialEq, Eq, PartialOrd, Ord, Hash)]
@@ -75,13 +77,18 @@ pub struct Workload {
 }
 
 fn gen_ctx(rng: &mut Rng, p: &Pools, coords_ok: bool) -> Ctx {
+    if rng.chance(1, 8) {
+        let c = rng.pick(&p.sun_coords);
+        // a small set of zones so that two contexts often differ in the coordinates only
+        return Ctx::TzCoords(rng.pick(&["UTC", "Europe/Paris"]).to_string(), c.0, c.1);
+    }
     match rng.below(if coords_ok { 10 } else { 8 }) {
         0 | 1 | 2 => Ctx::Default,
         3 | 4 => Ctx::Holidays(rng.pick(&p.countries).clone()),
         5 | 6 => Ctx::Tz(rng.pick(&p.zones).to_string()),
         7 => Ctx::TzHolidays(rng.pick(&p.zones).to_string(), rng.pick(&p.countries).clone()),
         _ => {
-            let c = rng.pick(&p.coords);
+            let c = rng.pick(&p.sun_coords);
             Ctx::Coords(c.0, c.1)
         }
     }
@@ -90,7 +97,10 @@ fn gen_ctx(rng: &mut Rng, p: &Pools, coords_ok: bool) -> Ctx {
 fn gen_expr(rng: &mut Rng, p: &Pools, c: &Ctx) -> String {
     // holiday contexts get holiday expressions more often
     let hol = matches!(c, Ctx::Holidays(_) | Ctx::TzHolidays(..) | Ctx::Coords(..));
-    if hol && rng.chance(1, 2) {
+    let sun = matches!(c, Ctx::TzCoords(..) | Ctx::Coords(..));
+    if sun && rng.chance(1, 2) {
+        rng.pick(&p.sun_exprs).clone()
+    } else if hol && rng.chance(1, 2) {
         rng.pick(&p.holiday_exprs).clone()
     } else if rng.chance(1, 6) {
         rng.pick(&p.easter_exprs).clone()
@@ -115,17 +125,27 @@ fn gen_op(rng: &mut Rng, p: &Pools, coords_ok: bool, n_prebuilt: u32) -> Op {
             use chrono::Datelike;
             Op::ScheduleAt { e, c, date: (d.year(), d.month(), d.day()) }
         }
-        10 => {
-            if rng.chance(1, 2) {
+        10 | 11 => {
+            if rng.chance(1, 3) {
                 Op::CloneEval { e, c, t }
             } else {
-                let c2 = gen_ctx(rng, p, false);
+                // the second context often differs from the first in one component only
+                let c2 = match (&c, rng.below(3)) {
+                    (Ctx::TzCoords(z, ..), 0 | 1) => {
+                        let co = rng.pick(&p.sun_coords);
+                        Ctx::TzCoords(z.clone(), co.0, co.1)
+                    }
+                    (Ctx::Holidays(_), 0 | 1) => Ctx::Holidays(rng.pick(&p.countries).clone()),
+                    (Ctx::Tz(_), 0) => Ctx::Tz(rng.pick(&p.zones).to_string()),
+                    (Ctx::TzHolidays(z, _), 0 | 1) => Ctx::TzHolidays(z.clone(), rng.pick(&p.countries).clone()),
+                    _ => gen_ctx(rng, p, false),
+                };
                 Op::Recontext { e, c1: c, c2, t }
             }
         }
-        11 | 12 if n_prebuilt > 0 => Op::Shared { i: rng.below(n_prebuilt as u64) as u32, t },
+        12 if n_prebuilt > 0 => Op::Shared { i: rng.below(n_prebuilt as u64) as u32, t },
         13 if n_prebuilt > 0 => Op::SharedIter { i: rng.below(n_prebuilt as u64) as u32, t, n: rng.range(1, 12) as u32 },
-        11 | 12 | 13 => Op::State { e, c, t },
+        12 | 13 => Op::State { e, c, t },
         14 | 15 => Op::Holidays(rng.pick(&p.countries).clone()),
         16 => {
             let (cc, date, school) = p.pick_holiday_probe(rng);
@@ -140,6 +160,24 @@ fn gen_op(rng: &mut Rng, p: &Pools, coords_ok: bool, n_prebuilt: u32) -> Op {
             Op::TzAt(c.0, c.1)
         }
     }
+}
+
+/// Two lookups / evaluations for two places a few metres apart on opposite sides of a zone border.
+fn gen_border_ops(rng: &mut Rng, p: &Pools) -> Option<(Op, Op)> {
+    if p.border_pairs.is_empty() {
+        return None;
+    }
+    let (a, b) = *rng.pick(&p.border_pairs);
+    let (a, b) = if rng.chance(1, 2) { (a, b) } else { (b, a) };
+    let t = *rng.pick(&p.instants);
+    Some(match rng.below(3) {
+        0 => (Op::TzAt(a.0, a.1), Op::TzAt(b.0, b.1)),
+        1 => (Op::CountryAt(a.0, a.1), Op::CountryAt(b.0, b.1)),
+        _ => {
+            let e = rng.pick(&p.exprs).clone();
+            (Op::StateNext { e: e.clone(), c: Ctx::Coords(a.0, a.1), t }, Op::StateNext { e, c: Ctx::Coords(b.0, b.1), t })
+        }
+    })
 }
 
 pub fn generate(rng: &mut Rng, p: &Pools, mode: &str) -> Workload {
@@ -194,6 +232,17 @@ pub fn generate(rng: &mut Rng, p: &Pools, mode: &str) -> Workload {
             }
         }
         threads.push(ops);
+    }
+    // places next to each other across a border: both lookups in the same execution, same or different threads
+    if coords_ok && rng.chance(1, 2) {
+        if let Some((o1, o2)) = gen_border_ops(rng, p) {
+            let a = rng.usize_below(n_threads);
+            let b = if rng.chance(1, 2) { a } else { rng.usize_below(n_threads) };
+            let pa = rng.usize_below(threads[a].len() + 1);
+            threads[a].insert(pa, o1);
+            let pb = rng.usize_below(threads[b].len() + 1);
+            threads[b].insert(pb, o2);
+        }
     }
     // iterator hand-offs between threads (always from a lower to a higher thread index: no wait cycles)
     if !c10 {
